@@ -493,7 +493,7 @@ func scriptedStage(dir string, seed uint64, tier string) error {
 	}
 	// random
 	r := gal.NewRand(seed)
-	n := 900
+	n := 800
 	if tier == "thorough" {
 		n = 9000
 	}
@@ -574,6 +574,8 @@ type cutServer struct {
 	bare    bool // error responses without a body (Content-Length: 0)
 	etag    string // when set: sent as ETag on every 200/206 and answered to HEAD requests (the cache's index path)
 	refuse  int    // the first `refuse` GET requests are answered 503 (with or without a body, see bare)
+	goodRanges int // when > 0: Range requests beyond the first goodRanges ones are answered 403 (a resumption refused after k good ones)
+	rangeSeen  int
 	// what happened, for the expectations handed to Coq
 	effCuts  int  // connections actually cut
 	corner   bool // a connection cut after its last body byte, before the end marker
@@ -606,10 +608,17 @@ func (s *cutServer) ServeHTTP(w http.ResponseWriter, r *http.Request) {
 	if refused {
 		s.refuse--
 	}
+	forbidden := false
+	if off >= 0 && s.goodRanges > 0 {
+		s.rangeSeen++
+		forbidden = s.rangeSeen > s.goodRanges
+	}
 	s.mu.Unlock()
 	status, body := 200, s.data
 	if refused {
 		status, body = 503, nil
+	} else if forbidden {
+		status, body = 403, nil
 	} else if off >= 0 {
 		switch s.kind {
 		case 0:
@@ -701,6 +710,7 @@ type hcorner struct {
 	kind, dlen, framing int
 	fin                 bool
 	cuts                []int
+	goodRanges          int
 }
 
 func httpStage(dir string, seed uint64, tier string) error {
@@ -730,16 +740,27 @@ func httpStage(dir string, seed uint64, tier string) error {
 	var corners []hcorner
 	for kind := 0; kind < 3; kind++ {
 		corners = append(corners,
-			hcorner{kind, 13, frClose, true, []int{5}},           // finding C20-F1: short body, EOF
-			hcorner{kind, 300, frClose, true, []int{0}},          // ... nothing at all
-			hcorner{kind, 300, frClose, true, []int{150, 10}},    // (the second cut is never reached)
-			hcorner{kind, 300, frClose, false, []int{150}},       // same response reset instead: retried
-			hcorner{kind, 300, frLength, true, []int{150, 200}},  // clean close of a response that announced its length
-			hcorner{kind, 300, frChunked, true, []int{150, 200}}, // ... of a chunked response
-			hcorner{kind, 300, frChunked, false, []int{150, 200}},
-			hcorner{kind, 13, frChunked, true, []int{13}},      // c20_live_416_corner_refuted through net/http: cut after the last byte, before the terminating chunk
-			hcorner{kind, 300, frChunked, true, []int{100, 200}}, // second cut after the last byte of the 206 body (Range-honouring server)
+			hcorner{kind, 13, frClose, true, []int{5}, 0},           // finding C20-F1: short body, EOF
+			hcorner{kind, 300, frClose, true, []int{0}, 0},          // ... nothing at all
+			hcorner{kind, 300, frClose, true, []int{150, 10}, 0},    // (the second cut is never reached)
+			hcorner{kind, 300, frClose, false, []int{150}, 0},       // same response reset instead: retried
+			hcorner{kind, 300, frLength, true, []int{150, 200}, 0},  // clean close of a response that announced its length
+			hcorner{kind, 300, frChunked, true, []int{150, 200}, 0}, // ... of a chunked response
+			hcorner{kind, 300, frChunked, false, []int{150, 200}, 0},
+			hcorner{kind, 13, frChunked, true, []int{13}, 0},      // c20_live_416_corner_refuted through net/http: cut after the last byte, before the terminating chunk
+			hcorner{kind, 300, frChunked, true, []int{100, 200}, 0}, // second cut after the last byte of the 206 body (Range-honouring server)
 		)
+		// retry exhaustion, every framing that reports a cut as an error: more failing reads in a row than the budget
+		// (the resumed connections deliver nothing), and a resumption refused (403) after one / two good ones
+		for _, fr := range []int{frLength, frChunked} {
+			for _, fin := range []bool{false, true} {
+				corners = append(corners,
+					hcorner{kind, 300, fr, fin, []int{150, 0, 0, 0, 0}, 0},
+					hcorner{kind, 300, fr, fin, []int{100, 50}, 1},
+					hcorner{kind, 300, fr, fin, []int{100, 50, 50}, 2},
+				)
+			}
+		}
 	}
 	goJudged := 0
 	for i := 0; i < n+len(corners); i++ {
@@ -752,6 +773,7 @@ func httpStage(dir string, seed uint64, tier string) error {
 			dlen = 1 << 20
 		}
 		dseed := r.Intn(1000)
+		goodRanges := 0
 		var cuts []int
 		for j, nc := 0, r.Intn(5); j < nc; j++ {
 			c := r.Intn(dlen + 1)
@@ -779,9 +801,10 @@ func httpStage(dir string, seed uint64, tier string) error {
 		} else if i < 6+len(corners) {
 			c := corners[i-6]
 			kind, dlen, framing, fin, cuts = c.kind, c.dlen, c.framing, c.fin, c.cuts
+			goodRanges = c.goodRanges
 		}
 		bare := i%2 == 0
-		srv := &cutServer{data: genData(dseed, dlen), kind: kind, cuts: append([]int(nil), cuts...), framing: framing, fin: fin, bare: bare}
+		srv := &cutServer{data: genData(dseed, dlen), kind: kind, cuts: append([]int(nil), cuts...), framing: framing, fin: fin, bare: bare, goodRanges: goodRanges}
 		ts := httptest.NewServer(srv)
 		rc, err := a.FetchPackage(context.Background(), fpkg{ts.URL + "/p.apk"})
 		var got []byte
@@ -810,7 +833,7 @@ func httpStage(dir string, seed uint64, tier string) error {
 		// most two connections cut in the whole download (so no Read meets more), none after its last
 		// byte, and the server either honours Range, or restarts with every cut a clean close (all
 		// bytes sent before it arrive) at or after the previous cut (the discard reaches progress)
-		live := !unframed && !corner && effCuts <= 2
+		live := !unframed && !corner && effCuts <= 2 && goodRanges == 0
 		switch kind {
 		case 0:
 		case 1:
@@ -859,7 +882,7 @@ func httpStage(dir string, seed uint64, tier string) error {
 			class += "/expected-to-complete"
 		}
 		w.Add(gal.Case{Term: term, Class: class, Trivial: len(cuts) == 0,
-			Key: fmt.Sprintf("%d/%d/%d/%d/%v/%v", kind, dseed, dlen, framing, fin, cuts),
+			Key: fmt.Sprintf("%d/%d/%d/%d/%v/%v/%d", kind, dseed, dlen, framing, fin, cuts, goodRanges),
 			Desc: hdesc{kindNames[kind], dlen, framingNames[framing], fin, bare, cuts, len(got), ec, reqs, live}})
 	}
 	fmt.Printf("STAT {\"large_bodies_judged_in_go_only\": %d}\n", goJudged)
@@ -870,7 +893,7 @@ func main() {
 	out := flag.String("out", "", "cases directory")
 	seed := flag.Uint64("seed", 1, "seed")
 	tier := flag.String("tier", "quick", "tier")
-	stage := flag.String("stage", "scripted", "scripted|http|index")
+	stage := flag.String("stage", "scripted", "scripted|http|index|callers")
 	_ = flag.String("replay", "", "unused: cases are regenerated from the seed")
 	flag.Parse()
 	var err error
@@ -881,6 +904,8 @@ func main() {
 		err = httpStage(*out, *seed, *tier)
 	case "index":
 		err = indexStage(*out, *seed, *tier)
+	case "callers":
+		err = callersStage(*out, *seed, *tier)
 	}
 	if err != nil {
 		fmt.Fprintln(os.Stderr, err)
